@@ -102,8 +102,13 @@ class FindByGlob(Finder):
         :param as_sid:
         :return:
         """
-        # index is coherent in all search_sids, which is a bit strange
-        index = str(search_sids[0]).split("/").index(">")
+        # index of the ">" sign, taken from the first search sid that has one
+        # (narrowing may have replaced the ">" of some of the unfolded searches by a value)
+        indices = [parts.index(">") for parts in (str(s).split("/") for s in search_sids) if ">" in parts]
+        if not indices:  # a ">" inside a value is not a sort sign
+            yield from self.star_search(search_sids, as_sid=as_sid)
+            return
+        index = indices[0]
 
         """
         indices = []
